@@ -162,6 +162,14 @@ def default_cells(tier):
         "CircularBinarySegmentation": [{"max_interval_length": 100}, {"max_interval_length": 100, "threshold_scale": None, "level": 0.01}],
         "StatThresholdAnomaliser": [{"change_detector": {"cls": "PELT"}}, {"change_detector": {"cls": "MovingWindow"}, "stat_lower": -0.5, "stat_upper": 0.5}],
     }
+    # candidate intervals of more than 256 samples (implementations that search coarse-to-fine only beyond some size): seeded and
+    # circular binary segmentation with max_interval_length >= n on 300-460 samples with bursts shorter than min_segment_length and
+    # events in the first / last samples
+    for i, seed in enumerate((25004, 25006, 25012, 25014, 25020, 25022) if tier == "quick" else tuple(25004 + 2 * j for j in range(24))):
+        yield {"detector": "SeededBinarySegmentation", "params": {"max_interval_length": 1000}, "seed": seed, "n": 300 + 40 * (i % 5), "p": 1 + i % 2,
+               "frame": False}
+        if i < (2 if tier == "quick" else 8):
+            yield {"detector": "CircularBinarySegmentation", "params": {}, "seed": seed, "n": 290 + 10 * i, "p": 1, "frame": False}
     for det, vs in variants.items():
         for seed in range(8 if tier == "quick" else 32):
             for v in vs:
